@@ -50,6 +50,15 @@ fn main() {
         }
         i += 2;
     }
+    // Every second shard (and a replay when DV5_LOGGING is set) runs with the crate's logging
+    // statements switched on: their arguments are evaluated and formatted into a sink.
+    let logging = match std::env::var("DV5_LOGGING") {
+        Ok(v) => v != "0",
+        Err(_) => (p.replay.is_some() || p.shard % 2 == 1) && !prop.starts_with("miri"),
+    };
+    if logging {
+        util::install_trace_sink();
+    }
     // Panics inside monitors/harness must not look like a verdict: report them as harness errors.
     let report: Report = match prop.as_str() {
         "smoke" => props::smoke::run(&p),
